@@ -200,6 +200,12 @@ func (in *Interp) assumeNil(st *State, x *ast.BinaryExpr, truth bool) {
 	nonNil := (x.Op == token.NEQ) == truth
 	if id, ok := unparen(other).(*ast.Ident); ok {
 		o := in.obj(id)
+		// err == nil after a child decode: the child's success guarantees hold
+		if ov, isObj := st.vars[o].(ObjV); isObj && !nonNil && st.ensures != nil {
+			if fs, ok := st.ensures[ov.Path]; ok {
+				st.facts = append(st.facts, fs...)
+			}
+		}
 		if mv, ok := st.vars[o].(MaybeV); ok && nonNil {
 			st.vars[o] = mv.V
 		}
@@ -271,16 +277,28 @@ func proveD(d *Term, facts []Fact, branch string, depth int) (bool, []Fact) {
 	// usable facts: unconditional ones and those of the branch under consideration
 	var fs []Fact
 	for _, f := range facts {
+		if badHyps[f.Src] {
+			continue
+		}
 		if f.Cond == "" || (branch != "" && strings.Contains(branch, "\x00"+f.Cond+"\x00")) {
 			fs = append(fs, f)
 		}
 	}
 	// declared ranges of the atoms that pull the difference down
-	for k, v := range d.K {
-		if v < 0 {
-			if m, ok := atomMax[k]; ok {
-				fs = append(fs, Fact{L: FromAtom(d.Atoms[k]), R: Const(m), Src: "declared range"})
+	ranged := map[string]bool{}
+	addRange := func(t *Term) {
+		for k := range t.K {
+			if m, ok := atomMax[k]; ok && !ranged[k] {
+				ranged[k] = true
+				fs = append(fs, Fact{L: FromAtom(t.Atoms[k]), R: Const(m), Src: "declared range"})
 			}
+		}
+	}
+	addRange(d)
+	for _, f := range fs[:len(fs):len(fs)] {
+		if f.Src != "declared range" {
+			addRange(f.L)
+			addRange(f.R)
 		}
 	}
 	var used []Fact
@@ -298,19 +316,28 @@ func proveD(d *Term, facts []Fact, branch string, depth int) (bool, []Fact) {
 			if !sharesAtom(d, g) {
 				continue
 			}
-			nd := d.Sub(g)
-			if termWeight(nd) > termWeight(d)+2 {
-				continue
+			// the fact may be used scaled by the (positive integer) ratio of a shared atom's coefficients
+			mults := []int64{1}
+			for k, cd := range d.K {
+				if cg, ok := g.K[k]; ok && cg != 0 && cd%cg == 0 && cd/cg > 1 {
+					mults = append(mults, cd/cg)
+				}
 			}
-			used = append(used, f)
-			if rec(nd, depth-1, i+1) {
-				return true
+			for _, m := range mults {
+				nd := d.AddScaled(g, -m)
+				if termWeight(nd) > termWeight(d)+2 {
+					continue
+				}
+				used = append(used, f)
+				if rec(nd, depth-1, i+1) {
+					return true
+				}
+				used = used[:len(used)-1]
 			}
-			used = used[:len(used)-1]
 		}
 		return false
 	}
-	if rec(d, 3, 0) {
+	if rec(d, 5, 0) {
 		return true, append([]Fact(nil), used...)
 	}
 	// case split on a branch value: ite(c ? x : y) is x when c holds, y otherwise;
